@@ -108,6 +108,10 @@ def constructor_checks(chk, P):
             ("like-species pair once", "[Pair]\nA-A : as.zero\nA-B : as.zero\n", False),
             ("'Table-Form:t ' and 'Table-Form: t'", "[Table-Form:t ]\nx : 1 2\ny : 1 2\n[Table-Form: t]\nx : 1 2\ny : 1 2\n", True),
             ("'Table-Form:t' and 'Table-Form:u'", "[Table-Form:t]\nx : 1 2\ny : 1 2\n[Table-Form:u]\nx : 1 2\ny : 1 2\n", False),
+            ("'Table-Form:t', 'Table-Form:u', then 'Table-Form: t ' (another table form between the two spellings)",
+             "[Table-Form:t]\nx : 1 2\ny : 1 2\n[Table-Form:u]\nx : 1 2\ny : 1 2\n[Table-Form: t ]\nx : 1 2\ny : 1 2\n", True),
+            ("three table forms, the first and the last differing only in blanks, given in the order u, ' t', t",
+             "[Table-Form:u]\nx : 1 2\ny : 1 2\n[Table-Form: t]\nx : 1 2\ny : 1 2\n[Pair]\nA-B : as.zero\n[Table-Form:t]\nx : 1 2\ny : 1 2\n", True),
             ("no [Pair] section at all", "[Tabulation]\ntarget : GULP\n", False)):
         out = parse(P, text)
         ok = (out[0] == "raise" and _dup(P, out[1])) if dup else out[0] == "ok"
